@@ -12,10 +12,15 @@ Line-protocol driver for C13 (fields separated by single spaces; byte strings in
   SU k v / SG k              SecureTrie Update/Get (key hashed first)
   DS item,item,...           types.DeriveSha                              -> <hex32>
   KEC data                   Keccak-256                                   -> <hex32>
-  DB...                      trie.Database model, see ModelDb
+  DBRESET | DBNEW            fresh trie.Database (DBNEW keeps the disk)           -> ok
+  DBINS h size k,k,...       db.insert of a node with these hash children         -> ok
+  DBREF h | DBDEREF h | DBCAP n | DBCOMMIT h                                      -> ok
+  DBDUMP                     mem=<n>:<digest> meta=<n>:<digest> disk=<n>:<digest>
+  DBDUMPFULL                 the same in full text
 -/
 import YouVerif.C13.Model
 import YouVerif.C13.ModelHash
+import YouVerif.C13.ModelDb
 import YouVerif.Common.Hex
 import YouVerif.Common.Keccak
 open YouVerif.Common YouVerif.C13
@@ -47,6 +52,42 @@ def parseDb (s : String) : Option ProofDb :=
       let b ← hx b
       pure (h, b)
     | _ => none
+
+def bytesLt : List UInt8 → List UInt8 → Bool
+  | [], [] => false
+  | [], _ :: _ => true
+  | _ :: _, [] => false
+  | a :: as, b :: bs => if a < b then true else if b < a then false else bytesLt as bs
+
+def sortBytes (l : List (List UInt8)) : List (List UInt8) := l.mergeSort fun a b => !bytesLt b a
+
+def dbText (s : Db.State) : String × String × String :=
+  let mem := String.intercalate "," (s.mem.map fun n => hexOfList n.hash ++ ":" ++ toString n.parents)
+  let metaL := (s.roots.mergeSort fun a b => !bytesLt b.1 a.1).map fun e => hexOfList e.1 ++ ":" ++ toString e.2
+  let disk := (sortBytes s.disk).map hexOfList
+  (mem, String.intercalate "," metaL, String.intercalate "," disk)
+
+def digest (s : String) : String := (hexOfList (K s.toUTF8.toList)).take 16 |>.toString
+
+def dbDump (s : Db.State) (full : Bool) : String :=
+  let (a, b, c) := dbText s
+  if full then s!"mem={a} meta={b} disk={c}"
+  else s!"mem={s.mem.length}:{digest a} meta={s.roots.length}:{digest b} disk={s.disk.length}:{digest c}"
+
+def dbStep (s : Db.State) : List String → Option (Db.State × String)
+  | ["DBRESET"] => some ({}, "ok")
+  | ["DBNEW"] => some ({ s with mem := [], roots := [] }, "ok")
+  | ["DBINS", h, size, kids] =>
+    match hx h, nat? size, (splitNE kids ",").mapM hx with
+    | some h, some size, some kids => some (Db.insert s h size kids, "ok")
+    | _, _, _ => none
+  | ["DBREF", h] => (hx h).map fun h => (Db.reference s h, "ok")
+  | ["DBDEREF", h] => (hx h).map fun h => (Db.dereference s h, "ok")
+  | ["DBCAP", n] => (nat? n).map fun n => (Db.cap s n, "ok")
+  | ["DBCOMMIT", h] => (hx h).map fun h => (Db.commit s h, "ok")
+  | ["DBDUMP"] => some (s, dbDump s false)
+  | ["DBDUMPFULL"] => some (s, dbDump s true)
+  | _ => none
 
 def step (t : Node) (line : String) : Node × String :=
   match fields line with
@@ -99,4 +140,13 @@ def step (t : Node) (line : String) : Node × String :=
     | none => (t, "bad-op")
   | _ => (t, "bad-op")
 
-def main : IO Unit := runLoop (Node.empty) step
+def step2 (st : Node × Db.State) (line : String) : (Node × Db.State) × String :=
+  if line.startsWith "DB" then
+    match dbStep st.2 (fields line) with
+    | some (d, out) => ((st.1, d), out)
+    | none => (st, "bad-op")
+  else
+    let (t, out) := step st.1 line
+    ((t, st.2), out)
+
+def main : IO Unit := runLoop ((Node.empty, {}) : Node × Db.State) step2
